@@ -252,7 +252,7 @@ class AuxData(object):
 
     def __eq__(self, other):
         self_form = json.loads(self.array.layout.form.tojson())
-        other_form = json.loads(self.array.layout.form.tojson())
+        other_form = json.loads(other.array.layout.form.tojson())
 
         def form_sweep(input_form, blacklist):
             if isinstance(input_form, dict):
@@ -265,7 +265,7 @@ class AuxData(object):
                 return input_form
 
         self_form = form_sweep(self_form, ["primitive", "format", "itemsize"])
-        other_form = form_sweep(self_form, ["primitive", "format", "itemsize"])
+        other_form = form_sweep(other_form, ["primitive", "format", "itemsize"])
 
         return self_form == other_form
 
